@@ -322,6 +322,11 @@ class Operation(ElementBase):
     def invert(self) -> "Operation":
         """Flips top and bottom face"""
         self.top_face, self.bottom_face = self.bottom_face, self.top_face
+
+        # side edges now run between the same two points but the other way round
+        for edge in self.side_edges:
+            edge.reverse()
+
         return self
 
     def mirror(self, normal: VectorType, origin: Optional[PointType] = None):
